@@ -28,7 +28,10 @@ def parseStep (t : String) : Option Step :=
   match t.splitOn ":" with
   | ["draw"] => some .draw
   | ["draw32"] => some .draw32
-  | ["send", dst, k] => k.toNat?.map (Step.send dst)
+  | ["send", dst, k] => k.toNat?.map (fun k => Step.send dst k 0)
+  | ["send", dst, k, d] => do let k ← k.toNat?; let d ← d.toNat?; pure (.send dst k d)
+  | ["sig", n] => some (.sig n)
+  | ["wait", n] => some (.wait n)
   | ["sched", d, k] => do let d ← d.toNat?; let k ← k.toNat?; pure (.sched d k)
   | ["spawn", t] => some (.spawn t)
   | ["sleep", d] => d.toNat?.map Step.sleep
@@ -68,7 +71,13 @@ def parseScript (body : List String) : Script := Id.run do
         sc := { sc with links := sc.links ++ [⟨src, dst, none⟩] }
       else
         match kvNat rest "lat", kvNat rest "jit" with
-        | some l, some j => sc := { sc with links := sc.links ++ [⟨src, dst, some (l, j)⟩] }
+        | some l, some j =>
+          -- the transmission time of a link with a bitrate is measured by the harness (`tx` line)
+          let tx := if ((kvNat rest "rate").getD 0) == 0 then 0 else
+            (body.findSome? fun l2 => match words l2 with
+              | ["tx", s2, d2, v] => if s2 == src && d2 == dst then v.toNat? else none
+              | _ => none).getD 0
+          sc := { sc with links := sc.links ++ [⟨src, dst, some (l, j, tx)⟩] }
         | _, _ => pure ()
     | "rule" :: path :: on :: steps =>
       let on? : Option On :=
@@ -137,22 +146,24 @@ def streamOf (sc : Script) (r : RunObs) : Except String (List Nat) := do
     else if o.what == "reset" then out := out.push 0
     else if o.what == "draw" || o.what == "draw32" then out := out.push (o.args.headD 0)
     else if o.what == "sp" then out := out.push (o.args.headD 0)
-    else if o.what == "send" then
-      match sc.links.find? (fun l => l.src == o.path && l.dst == o.peer) with
-      | some ⟨_, _, some (lat, jit)⟩ =>
+    else if o.what == "xmit" then
+      -- a transmission starts (`Channel::send_message` on an idle channel; the probe logs src, dst, serial):
+      -- this is where the jitter is drawn, if the metric has one
+      match sc.links.find? (fun l => l.src == o.who && l.dst == o.peer) with
+      | some ⟨_, _, some (lat, jit, tx)⟩ =>
         if jit != 0 then
           match o.args with
-          | [_, _, serial] =>
+          | [serial] =>
             match recv[serial]? with
             | some t =>
-              if t < o.time + lat then throw s!"arrival-before-latency serial={serial}"
-              let j := t - o.time - lat
+              if t < o.time + lat + tx then throw s!"arrival-before-latency serial={serial}"
+              let j := t - o.time - lat - tx
               if j > jit then throw s!"jitter-out-of-range serial={serial} jitter={j} bound={jit}"
               out := out.push j
             | none =>
               -- `at_sim_end` does not flush the emission buffer: the draw is made, its value is never used
               if ending then out := out.push 0 else throw s!"undelivered serial={serial}"
-          | _ => throw "bad-send-line"
+          | _ => throw "bad-xmit-line"
       | _ => pure ()
   return out.toList
 
@@ -266,10 +277,20 @@ def main (stdin : IO.FS.Stream) : IO Unit := do
         continue
       -- evidence
       let cnt := fun (w : String) => (a1.obs.filter (·.what == w)).size
-      let jit := (a1.obs.filter (fun o => o.what == "send" &&
-        (match sc.links.find? (fun l => l.src == o.path && l.dst == o.peer) with
-         | some ⟨_, _, some (_, j)⟩ => j != 0
+      let jit := (a1.obs.filter (fun o => o.what == "xmit" &&
+        (match sc.links.find? (fun l => l.src == o.who && l.dst == o.peer) with
+         | some ⟨_, _, some (_, j, _)⟩ => j != 0
          | _ => false))).size
+      -- sends that found their channel busy (more `send`s over channels than transmissions started at that moment
+      -- is hard to read off; count transmissions that start outside a send: unbusy dequeues and delayed sends)
+      let sendin := (a1.obs.filter (fun o => o.what == "send" && (o.args.getD 3 0) != 0)).size
+      let endEmits := Id.run do
+        let mut ending := false
+        let mut n := 0
+        for o in a1.obs do
+          if o.what == "end" then ending := true
+          if ending && (o.what == "send" || o.what == "sched") then n := n + 1
+        return n
       let draws := cnt "draw" + cnt "draw32"
       let remote := (a1.obs.filter (fun o => o.what == "msg" && o.peer != "-")).size
       let decisive := a1.obs.any (fun o => o.what == "sel" &&
@@ -288,6 +309,6 @@ def main (stdin : IO.FS.Stream) : IO Unit := do
       let restarts := cnt "reset"
       let nt := sc.created.length ≥ 2 && draws ≥ 1 && remote ≥ 1 && decisive && wantChild &&
         (jit ≥ 1 || decisiveLater)
-      IO.println s!"ok {id} nt={if nt then 1 else 0} mods={sc.created.length} obs={a1.obs.size} draws={draws} jitter={jit} selpolls={cnt "sp"} sels={cnt "sel"} msgs={cnt "msg"} wakes={cnt "woke"} unfinished={a1.drops.size} child={if wantChild then 1 else 0} stream={stream.length} resets={restarts} laterdecisive={if decisiveLater then 1 else 0}"
+      IO.println s!"ok {id} nt={if nt then 1 else 0} mods={sc.created.length} obs={a1.obs.size} draws={draws} jitter={jit} selpolls={cnt "sp"} sels={cnt "sel"} msgs={cnt "msg"} wakes={cnt "woke"} unfinished={a1.drops.size} child={if wantChild then 1 else 0} stream={stream.length} resets={restarts} laterdecisive={if decisiveLater then 1 else 0} xmits={cnt "xmit"} sendin={sendin} sigs={cnt "sig"} gots={cnt "got"} endemits={endEmits}"
 
 end Driver.C04
